@@ -10,6 +10,45 @@ func init() {
 	vHarnesses["VerifC07MergeNulls"] = VerifC07MergeNulls
 	vHarnesses["VerifC07Canary"] = VerifC07Canary
 	vHarnesses["VerifC07Keyed"] = VerifC07Keyed
+	vHarnesses["VerifC07Deep"] = VerifC07Deep
+}
+
+// VerifC07Deep: objects over the keys a,b,c (each absent, a number or a one-element array, so
+// that members change value, kind, appear and disappear) below a chain of keys / array
+// positions of every length up to DEPTH: the hunk-level claims at every path length and spare
+// path capacity, strict and merge.
+func VerifC07Deep() {
+	depth := vChoice(vParam("DEPTH", 7) + 1)
+	mk := func() jsonObject {
+		o := jsonObject{}
+		for _, k := range []string{"a", "b", "c"}[:vParam("KEYS", 2)] {
+			switch vChoice(3) {
+			case 1:
+				o[k] = vNum()
+			case 2:
+				o[k] = jsonArray{vNum()}
+			}
+		}
+		return o
+	}
+	var a, b JsonNode = mk(), mk()
+	for i := 0; i < depth; i++ {
+		if vParam("CHAINKINDS", 1) > 1 && vChoice(2) == 1 {
+			a, b = jsonArray{a}, jsonArray{b}
+		} else {
+			a, b = jsonObject{"p": a}, jsonObject{"p": b}
+		}
+	}
+	if vKnown("hash.alias") {
+		vAssumeNoHashAlias(a, b)
+	}
+	if vChoice(2) == 0 {
+		vC07ObjCheck(a, b)
+		vCover("c07.deep.strict")
+	} else {
+		vC07MergeCheck(a, b)
+		vCover("c07.deep.merge")
+	}
 }
 
 // VerifC07Keyed: SetKeys("id") diffs: a member present on both sides (same id) is never removed
@@ -149,6 +188,11 @@ func VerifC07Obj() {
 	if vKnown("hash.alias") {
 		vAssumeNoHashAlias(a, b)
 	}
+	vC07ObjCheck(a, b)
+	vCover("c07.obj")
+}
+
+func vC07ObjCheck(a, b JsonNode) {
 	d := a.Diff(b)
 	vObserve("diff", d.Render())
 	for _, h := range d {
@@ -175,7 +219,6 @@ func VerifC07Obj() {
 	}
 	vAssert((len(d) == 0) == refEq(a, b, modeList, 0), "hunks exist for equal documents / none for different ones")
 	vLeaveOneOut(a, b, d, nil)
-	vCover("c07.obj")
 }
 
 // VerifC07Set: set / multiset hunks list only members (or surplus copies) present on one side.
@@ -245,6 +288,11 @@ func VerifC07Merge() {
 	if vKnown("hash.alias") {
 		vAssumeNoHashAlias(a, b)
 	}
+	vC07MergeCheck(a, b)
+	vCover("c07.merge")
+}
+
+func vC07MergeCheck(a, b JsonNode) {
 	d := a.Diff(b, MERGE)
 	for _, h := range d {
 		vAssert(h.Metadata.Merge, "merge-mode hunk without merge metadata")
@@ -255,7 +303,6 @@ func VerifC07Merge() {
 	}
 	vAssert((len(d) == 0) == refEq(a, b, modeList, 0), "hunks exist for equal documents / none for different ones")
 	vLeaveOneOut(a, b, d, []Option{MERGE})
-	vCover("c07.merge")
 }
 
 // VerifC07MergeNulls: merge diffs of documents in which a holds null members that b keeps,
